@@ -212,6 +212,19 @@ def _mutate(lines, kind, a, b, c):
         if cands:
             k, s0, s1 = cands[a % len(cands)]
             out[k] = out[k][:s0] + ["0", "1", "2"][c % 3].rjust(s1 - s0) + out[k][s1:]
+    elif kind == "count-delta":
+        # change one count-like integer by a small amount (N= 6 -> 5, 3, 8): packed arrays then have the wrong length
+        import re
+
+        cands = []
+        for k in range(n):
+            m = re.search(r"N=\s*(\d+)\s*$", out[k]) or re.fullmatch(r"\s*(\d+)\s*", out[k])
+            if m:
+                cands.append((k, m.start(1), m.end(1), int(m.group(1))))
+        if cands:
+            k, s0, s1, v = cands[a % len(cands)]
+            new = max(0, v + [-1, -2, -3, 1, 2, 5][c % 6])
+            out[k] = out[k][:s0] + str(new).rjust(s1 - s0) + out[k][s1:]
     elif kind == "del-section":
         # delete the body of a section: the lines between two header-like lines
         heads = [k for k in range(n) if _sig(out[k]) and _sig(out[k])[0] == "a" and (k + 1 < n and _sig(out[k + 1]) != _sig(out[k]))]
@@ -251,8 +264,16 @@ def _worker(task):
     new = _mutate(lines, kind, a, b, c)
     d = tempfile.mkdtemp(prefix="vh-c07w-")
     path = os.path.join(d, fname)
-    with open(path, "w") as fh:
-        fh.write("".join(new))
+    if kind == "bad-utf8":
+        # bytes that are not valid UTF-8 (a Latin-1 title, binary junk), within the first buffered block or later
+        raw = "".join(lines).encode("utf-8")
+        junk = [b"\xc5ngstr\xf6m", b"\xff\xfe", b"\x80\x81\x82", b"\xe9"][c % 4]
+        pos = (a % (min(len(raw), 200) + 1)) if b % 2 else (a % (len(raw) + 1))
+        with open(path, "wb") as fh:
+            fh.write(raw[:pos] + junk + raw[pos:])
+    else:
+        with open(path, "w") as fh:
+            fh.write("".join(new))
     counts = {"n": 0, "b": 0}
     orig_next, orig_back = utils.LineIterator.__next__, utils.LineIterator.back
 
@@ -377,7 +398,7 @@ def _tasks(ctx):
     files = _corpus(ctx)
     tasks = []
     kinds = ["delete", "dup", "swap", "subst", "subst", "overflow", "overflow", "inflate", "trunc-byte",
-             "count-zero", "count-zero", "del-section"]
+             "count-zero", "count-zero", "del-section", "count-delta", "count-delta", "bad-utf8"]
     per_file = ctx.n(36, 150) * (3 if ctx.escalated else 1)
     for fname, fmt, many, size in files:
         nl = sum(1 for _ in open(REPO / "iodata" / "test" / "data" / fname, errors="replace"))
@@ -393,8 +414,19 @@ def _tasks(ctx):
             rest = [c for c in cuts if c not in chosen]
             chosen |= set(rng.sample(rest, min(len(rest), max(cap - len(chosen), cap // 3))))
             cuts = sorted(chosen)
-        base = [("trunc", c, 0, 0) for c in cuts] + [("empty", 0, 0, 0), ("binary", 0, 0, 0)]
+        base = [("trunc", c, 0, 0) for c in cuts] + [("empty", 0, 0, 0), ("binary", 0, 0, 0), ("bad-utf8", 0, 1, 0),
+                                                      ("bad-utf8", 5, 1, 1)]
         base += [(rng.choice(kinds), rng.randrange(10**6), rng.randrange(10**6), rng.randrange(10**6)) for _ in range(cap)]
+        # every count-like line once (packed arrays: "N= 28" -> 27), up to a cap
+        import re as _re
+
+        try:
+            ftxt = open(REPO / "iodata" / "test" / "data" / fname, errors="replace").read().splitlines()
+        except OSError:
+            ftxt = []
+        ncount = sum(1 for l in ftxt if _re.search(r"N=\s*\d+\s*$", l) or _re.fullmatch(r"\s*\d+\s*", l))
+        for k in range(min(ncount, ctx.n(24, 80))):
+            base.append(("count-delta", k if ncount <= ctx.n(24, 80) else rng.randrange(ncount), 0, rng.randrange(6)))
         for kind, a, b, c in base:
             use_many = many and rng.random() < 0.5
             tasks.append((fname, use_many, kind, a, b, c, rng.random() < 0.3))
